@@ -298,13 +298,13 @@ fn read_case(it: &mut Inst, code: &[u8], cfg: &MemCfg, fi: usize, pairs: &[(u64,
     let foreign = calls.iter().filter(|c| method.is_empty() || c.method != method).count();
     match r {
         Err(p) => {
-            l.violation(format!("{name}:panic"), format!("host call panicked: {p} at {}", mc_core::last_panic_location()), case());
+            crate::util::violation(l, format!("{name}:panic"), format!("host call panicked: {p} at {}", mc_core::last_panic_location()), case());
             *it = Inst::new(code, cfg);
             return;
         }
         Ok(Ok(_)) => {
             if any_out {
-                l.violation(
+                crate::util::violation(l, 
                     format!("{name}:out-of-range-accepted"),
                     format!("a range outside the {size}-byte memory was accepted; mock calls: {:?}", summarize(&calls)),
                     case(),
@@ -320,7 +320,7 @@ fn read_case(it: &mut Inst, code: &[u8], cfg: &MemCfg, fi: usize, pairs: &[(u64,
             }
             if !method.is_empty() {
                 if mine.len() != 1 {
-                    l.violation(format!("{name}:delivery-count"), format!("runtime method {method} entered {} times", mine.len()), case());
+                    crate::util::violation(l, format!("{name}:delivery-count"), format!("runtime method {method} entered {} times", mine.len()), case());
                     return;
                 }
                 let got = &mine[0].bufs;
@@ -330,7 +330,7 @@ fn read_case(it: &mut Inst, code: &[u8], cfg: &MemCfg, fi: usize, pairs: &[(u64,
                     .collect();
                 if got != &want {
                     let k = (0..want.len()).find(|k| got.get(*k) != Some(&want[*k])).unwrap_or(0);
-                    l.violation(
+                    crate::util::violation(l, 
                         format!("{name}:wrong-bytes"),
                         format!(
                             "pair {k}: runtime received {} bytes (head {}), expected exactly memory[{}..+{}] (head {})",
@@ -353,11 +353,11 @@ fn read_case(it: &mut Inst, code: &[u8], cfg: &MemCfg, fi: usize, pairs: &[(u64,
         }
         Ok(Err((is_mem, text))) => {
             if !any_out && !any_silent {
-                l.violation(format!("{name}:in-range-rejected"), format!("an in-range call failed: {text}"), case());
+                crate::util::violation(l, format!("{name}:in-range-rejected"), format!("an in-range call failed: {text}"), case());
                 return;
             }
             if !mine.is_empty() || foreign > 0 {
-                l.violation(
+                crate::util::violation(l, 
                     format!("{name}:runtime-entered-on-failure"),
                     format!("the call failed ({text}) but the runtime had already been entered: {:?}", summarize(&calls)),
                     case(),
@@ -379,11 +379,11 @@ fn read_case(it: &mut Inst, code: &[u8], cfg: &MemCfg, fi: usize, pairs: &[(u64,
         match it.dump() {
             Ok(d) => {
                 if let Some(i) = first_diff(&d, &it.pattern) {
-                    l.violation(format!("{name}:read-modified-memory"), format!("memory differs from the pattern at byte {i} after a read-path call"), case());
+                    crate::util::violation(l, format!("{name}:read-modified-memory"), format!("memory differs from the pattern at byte {i} after a read-path call"), case());
                     it.fill();
                 }
             }
-            Err(e) => l.violation(format!("{name}:dump-failed"), format!("whole-memory return slice failed: {e}"), case()),
+            Err(e) => crate::util::violation(l, format!("{name}:dump-failed"), format!("whole-memory return slice failed: {e}"), case()),
         }
     }
 }
@@ -437,18 +437,18 @@ fn run_ret(ctx: &Ctx, code: &[u8], cfg: &MemCfg, l: &mut Local, cn: &Counters) {
             let e = classify(p, n, size);
             match it.call_caught("T_ret", &[p, n]) {
                 Err(pn) => {
-                    l.violation("return-slice:panic", format!("panicked: {pn} at {}", mc_core::last_panic_location()), case());
+                    crate::util::violation(l, "return-slice:panic", format!("panicked: {pn} at {}", mc_core::last_panic_location()), case());
                     it = Inst::new(code, cfg);
                 }
                 Ok(Ok(bytes)) => match e {
-                    Expect::OutOfRange => l.violation("return-slice:out-of-range-accepted", format!("returned {} bytes", bytes.len()), case()),
+                    Expect::OutOfRange => crate::util::violation(l, "return-slice:out-of-range-accepted", format!("returned {} bytes", bytes.len()), case()),
                     Expect::EmptyBeyond => {
                         l.info("empty range starting beyond the end accepted (statement-silent)");
                         l.class("return slice: accepted, empty range beyond end");
                     }
                     Expect::InRange => {
                         if bytes[..] != it.pattern[p as usize..(p + n) as usize] {
-                            l.violation("return-slice:wrong-bytes", format!("returned {} bytes that are not memory[{p}..+{n}]", bytes.len()), case());
+                            crate::util::violation(l, "return-slice:wrong-bytes", format!("returned {} bytes that are not memory[{p}..+{n}]", bytes.len()), case());
                         } else {
                             cn.nontrivial.fetch_add(1, Ordering::Relaxed);
                             l.class("return slice: in range, exact bytes");
@@ -456,7 +456,7 @@ fn run_ret(ctx: &Ctx, code: &[u8], cfg: &MemCfg, l: &mut Local, cn: &Counters) {
                     }
                 },
                 Ok(Err((is_mem, text))) => match e {
-                    Expect::InRange => l.violation("return-slice:in-range-rejected", text, case()),
+                    Expect::InRange => crate::util::violation(l, "return-slice:in-range-rejected", text, case()),
                     _ => {
                         if !is_mem {
                             l.info("out-of-range call failed with an error other than MemoryAccessError");
@@ -496,13 +496,13 @@ fn run_writes(ctx: &Ctx, code: &[u8], cfg: &MemCfg, via_buffer: bool, l: &mut Lo
             let mut dirty = false;
             match r {
                 Err(pn) => {
-                    l.violation(format!("{name}:panic"), format!("panicked: {pn} at {}", mc_core::last_panic_location()), case());
+                    crate::util::violation(l, format!("{name}:panic"), format!("panicked: {pn} at {}", mc_core::last_panic_location()), case());
                     it = Inst::new(code, cfg);
                     continue;
                 }
                 Ok(Ok(_)) => {
                     if e == Expect::OutOfRange {
-                        l.violation(format!("{name}:out-of-range-accepted"), "a write outside the memory was accepted".to_string(), case());
+                        crate::util::violation(l, format!("{name}:out-of-range-accepted"), "a write outside the memory was accepted".to_string(), case());
                         it.fill();
                         continue;
                     }
@@ -516,7 +516,7 @@ fn run_writes(ctx: &Ctx, code: &[u8], cfg: &MemCfg, via_buffer: bool, l: &mut Lo
                     match it.dump() {
                         Ok(d) => {
                             if let Some(i) = first_diff(&d, &want) {
-                                l.violation(
+                                crate::util::violation(l, 
                                     format!("{name}:wrong-range-written"),
                                     format!("after writing {n} bytes at {p} memory byte {i} is {:#x}, expected {:#x}", d.get(i).copied().unwrap_or(0), want.get(i).copied().unwrap_or(0)),
                                     case(),
@@ -527,12 +527,12 @@ fn run_writes(ctx: &Ctx, code: &[u8], cfg: &MemCfg, via_buffer: bool, l: &mut Lo
                                 l.class("write: in range, exactly [ptr,ptr+len) changed");
                             }
                         }
-                        Err(er) => l.violation(format!("{name}:dump-failed"), er, case()),
+                        Err(er) => crate::util::violation(l, format!("{name}:dump-failed"), er, case()),
                     }
                 }
                 Ok(Err((is_mem, text))) => {
                     if e == Expect::InRange {
-                        l.violation(format!("{name}:in-range-rejected"), text, case());
+                        crate::util::violation(l, format!("{name}:in-range-rejected"), text, case());
                         continue;
                     }
                     if !is_mem {
@@ -541,13 +541,13 @@ fn run_writes(ctx: &Ctx, code: &[u8], cfg: &MemCfg, via_buffer: bool, l: &mut Lo
                     match it.dump() {
                         Ok(d) => {
                             if let Some(i) = first_diff(&d, &it.pattern) {
-                                l.violation(format!("{name}:partial-write"), format!("the write failed but memory byte {i} changed"), case());
+                                crate::util::violation(l, format!("{name}:partial-write"), format!("the write failed but memory byte {i} changed"), case());
                                 dirty = true;
                             } else {
                                 l.class("write: out of range, rejected, memory unchanged");
                             }
                         }
-                        Err(er) => l.violation(format!("{name}:dump-failed"), er, case()),
+                        Err(er) => crate::util::violation(l, format!("{name}:dump-failed"), er, case()),
                     }
                 }
             }
@@ -564,13 +564,13 @@ fn run_writes(ctx: &Ctx, code: &[u8], cfg: &MemCfg, via_buffer: bool, l: &mut Lo
                 let case = || json!({"sweep": "write", "import": name, "buffer_id": id, "ptr": p, "memory_bytes": size});
                 match it.call_caught("T_buffer_consume", &[id, p]) {
                     Err(pn) => {
-                        l.violation("buffer_consume:panic", format!("panicked: {pn}"), case());
+                        crate::util::violation(l, "buffer_consume:panic", format!("panicked: {pn}"), case());
                         it = Inst::new(code, cfg);
                     }
-                    Ok(Ok(_)) => l.violation("buffer_consume:unknown-id-accepted", "buffer_consume succeeded for an id the runtime does not know".to_string(), case()),
+                    Ok(Ok(_)) => crate::util::violation(l, "buffer_consume:unknown-id-accepted", "buffer_consume succeeded for an id the runtime does not know".to_string(), case()),
                     Ok(Err(_)) => match it.dump() {
                         Ok(d) if first_diff(&d, &it.pattern).is_none() => l.class("write: unknown buffer id, rejected, memory unchanged"),
-                        _ => l.violation("buffer_consume:unknown-id-wrote", "memory changed although the buffer id is unknown".to_string(), case()),
+                        _ => crate::util::violation(l, "buffer_consume:unknown-id-wrote", "memory changed although the buffer id is unknown".to_string(), case()),
                     },
                 }
                 let _ = it.take_calls();
